@@ -141,7 +141,8 @@ def gen_project(rng, nmin=3, nmax=7, features=None):
                     ent.setdefault("environment", {})[rng.choice(VARPOOL)] = "${%s:-none}-s" % rng.choice(VARPOOL)
                 if "ifdeps" in features and rng.random() < 0.35:
                     v = rng.choice(VARPOOL)
-                    ent["if"] = rng.choice(['${%s:-}' % v, '$(eq,"${%s:-}","d1")' % v, '$(ne,"${%s:-x}","x")' % v])
+                    ent["if"] = rng.choice(['${%s:-}' % v, '$(eq,"${%s:-}","d1")' % v, '$(ne,"${%s:-x}","x")' % v] +
+                                           (['$(is-sandbox-enabled)', '$(not,$(is-sandbox-enabled))'] if "sandbox" in features else []))
                 r["depends"].append(ent)
         if "vars" in features:
             for v in rng.sample(VARPOOL, rng.randint(0, 2)):
